@@ -237,6 +237,12 @@ func installCommon(c *Ctx) {
 	}
 	in["(*sync.Mutex).Lock"] = func(c *Ctx, a []Value) Value { c.lock(a[0].(*Ptr).slot); return nil }
 	in["(*sync.Mutex).Unlock"] = func(c *Ctx, a []Value) Value { c.unlock(a[0].(*Ptr).slot); return nil }
+	// RWMutex is modelled as an exclusive lock (readers exclude each other too: a
+	// sound over-approximation of the orderings, and it cannot hide a race)
+	in["(*sync.RWMutex).Lock"] = in["(*sync.Mutex).Lock"]
+	in["(*sync.RWMutex).Unlock"] = in["(*sync.Mutex).Unlock"]
+	in["(*sync.RWMutex).RLock"] = in["(*sync.Mutex).Lock"]
+	in["(*sync.RWMutex).RUnlock"] = in["(*sync.Mutex).Unlock"]
 	in["github.com/pentops/j5/internal/bcl/errpos.AddSource"] = func(c *Ctx, a []Value) Value { return a[0] }
 }
 
